@@ -99,7 +99,7 @@ class Mirror:
 
 
 def sparse_seq(rng, tier):
-    w = rng.choice([3, 5, 9, 17, 30, 63, 64, 65, 70, 100, 129])
+    w = rng.choice([3, 5, 9, 17, 30, 63, 64, 65, 70, 100, 129, 150])
     h = w + rng.below(8)
     nd = rng.choice([0, 0, 1, 2, min(w - 1, 3)])
     M = Mirror(h, w, nd)
@@ -140,7 +140,7 @@ def sparse_seq(rng, tier):
             if col not in M.stale:
                 s = rng.below(h)
                 ops.append([9, col, s, rng.range(s, h)])
-        elif k == 6 and M.fd() >= 2 and M.nd < 70:
+        elif k == 6 and M.fd() >= 2 and M.nd < 140:
             ops.append([12, M.fd() - 1])
             M.nd += 1
         elif k == 7 and M.fd() >= 1:
@@ -161,6 +161,13 @@ def sparse_seq(rng, tier):
             i = rng.below(h)
             s = rng.below(M.fd())
             ops.append([7, i, s, rng.range(s, M.fd())])
+    # wide matrices: keep freezing until the dense tail spans a third word per row (129+ columns)
+    if w >= 129:
+        while M.nd < 132 and M.fd() >= 2:
+            ops.append([12, M.fd() - 1])
+            M.nd += 1
+            if rng.below(6) == 0:
+                ops.append([2, rng.below(h), rng.range(M.fd(), w - 1)])
     # un-indexed phase
     ops.append([14])
     M.indexed = False
